@@ -10,7 +10,9 @@ from __future__ import annotations
 
 import array
 import inspect
+import copy
 import io
+import pickle
 import math
 
 import bitarray as _ba
@@ -266,8 +268,11 @@ class EChaos(Engine):
             return {'k': 'step', 'gen': g.int(0, len(self.gens) - 1), 'times': g.pick([1, 1, 3])}
         if r < 0.03 * cfg['w_opt'] + 0.05 * cfg['w_step'] + 0.02:
             return {'k': 'cache_clear'}
-        kind = g.wpick([('call', 10), ('setprop', 2), ('getprop', 1), ('ctor', 2), ('pack', 1), ('dtype', 1)])
+        kind = g.wpick([('call', 10), ('setprop', 2), ('getprop', 1), ('ctor', 2), ('pack', 1), ('dtype', 1), ('dup', 0.5)])
         i = g.int(0, len(self.objs) - 1)
+        if kind == 'dup':
+            # a copy made by the copy / pickle protocols is one more object of the world: each of the two stays valid whatever is done to the other
+            return {'k': 'dup', 'obj': i, 'how': g.pick(['copy', 'deepcopy', 'deepcopy', 'pickle', 'deepcopy_in_list']), 'slot': g.int(0, 3)}
         x = self.objs[i]
         cname = type(x).__name__
         n = len(x) if kernel.is_bits(x) else len(x.data)
@@ -833,6 +838,32 @@ class EChaos(Engine):
                     elif len(self.objs) < 4:
                         self.objs.append(r)
                         self.snap.append(self._snapshot(r))
+            self.transition(label, st, kernel.exc_name(r) if st == 'exc' else None)
+            return {'st': st, 'exc': kernel.exc_name(r) if st == 'exc' else None}, incs
+        if k == 'dup':
+            i = int(ev.get('obj', 0)) % len(self.objs)
+            x = self.objs[i]
+            how = ev.get('how')
+            if how == 'pickle' and not kernel.is_bits(x):
+                # an Array holds a Dtype, whose reader functions are closures: pickle refuses it with its own AttributeError
+                # ("Can't pickle local object") - pickling an Array is not a documented capability, so nothing is asked of it
+                how = 'deepcopy'
+            before = self._valid()
+            fn = {'copy': copy.copy, 'pickle': lambda o: pickle.loads(pickle.dumps(o)), 'deepcopy_in_list': lambda o: copy.deepcopy([o, o])[1]}.get(how, copy.deepcopy)
+            st, r = call(fn, x)
+            label = f'dup|{type(x).__name__}.{how if how in ("copy", "pickle", "deepcopy_in_list") else "deepcopy"}'
+            self.probe('dup_call')
+            incs = self._monitor(before, label, st, r, [], ev)
+            if st == 'ok' and (kernel.is_bits(r) or kernel.is_array(r)) and r is not x:
+                slot = int(ev.get('slot', 0)) % 4
+                if slot == i:
+                    slot = (slot + 1) % 4
+                if slot < len(self.objs):
+                    self.objs[slot] = r
+                    self.snap[slot] = self._snapshot(r)
+                elif len(self.objs) < 4:
+                    self.objs.append(r)
+                    self.snap.append(self._snapshot(r))
             self.transition(label, st, kernel.exc_name(r) if st == 'exc' else None)
             return {'st': st, 'exc': kernel.exc_name(r) if st == 'exc' else None}, incs
         if k == 'pack':
